@@ -180,7 +180,7 @@ def run(ctx):
                 if "boundary" in exp:
                     ctx.count(f"{op}: guards={g}, " + ("at a child boundary" if exp["boundary"] else "inside a text child")
                               + f", edit {'succeeded' if exp['good'] else 'failed'}")
-                for key in ("boundary", "inside", "marks", "trivial", "pass1", "canJoin", "valid", "stripped"):
+                for key in ("boundary", "inside", "marks", "trivial", "pass1", "canJoin", "valid", "stripped", "fit"):
                     if key in exp and exp[key] is not None and out.get(key) != exp[key]:
                         ctx.mismatch(op + " " + key, replay, exp[key], out.get(key))
                 if op == "insguard join" and exp.get("canJoin") != {"ok": True}:
@@ -241,6 +241,10 @@ def run(ctx):
         rp = d.resolve(ip)
         stf, ft = outcome(lambda: fits_trivially(rp, rp, sl))
         stripped = node.mark(rp.parent.type.allowed_marks(node.marks))
+        fit = None
+        if sta == "ok":
+            # the model's `replace_step` (Fitter included) plans the insertion of the stripped node iff the real one does
+            fit = len(tr.steps) == 1 and tr.steps[0].to_json() == ReplaceStep(ip, ip, Slice(Fragment.from_(stripped), 0, 0)).to_json()
         if good and not rp.parent.type.allows_marks(node.marks):
             # `insertPoint_insert_succeeds_marked_partial`: how often the Fitter's answer is the insertion of the stripped node
             as_thm = len(tr.steps) == 1 and tr.steps[0].to_json() == ReplaceStep(ip, ip, Slice(Fragment.from_(stripped), 0, 0)).to_json()
@@ -250,7 +254,7 @@ def run(ctx):
         metas.append(("insguard insert", dict(replay, point=ip, node=node.to_json(), real=str(val)[:120] if sta != "ok" else "ok"),
                       {"good": good, "exact": exact, "boundary": rp.text_offset == 0, "inside": inside_guard(d, ip, [node]),
                        "marks": bool(rp.parent.type.allows_marks(node.marks)), "trivial": bool(ft) if stf == "ok" else None,
-                       "stripped": info.node(stripped)}))
+                       "stripped": info.node(stripped), "fit": fit}))
 
     def drop_pass1(d, pos, sl):
         """the first pass of drop_point, re-run on the real can_replace"""
